@@ -2121,6 +2121,40 @@ def replay_obj(h, upto, ctx):
             "python": "\n".join(lines) + "\n"}
 
 
+def field_alone_rejects(h, k, ctx):
+    """A step on which the implementation raised TypeError/ValueError and left the instance unchanged while the model
+    predicted success: does the FIELD ALONE (a fresh one-field class on the real library) reject the value that was
+    handed to it?  Then the mutation path did exactly what the field does, no clause of C03 fails (a rejection that
+    changes nothing never does), and the disagreement is between the field model and the field -- the subject of
+    C01/C02 (there: documented rules vs implementation, e.g. ImmutableSet re-checking minItems after conversion),
+    counted in the evidence, not a failure of C03's correspondence."""
+    s = h.steps[k]
+    if s["out"][0] != "raise" or s["out"][1] not in ("TypeError", "ValueError") or s["post"] is not None:
+        return False
+    op = s["op"]
+    if op["op"] == "set":
+        value = op["value"]
+    elif op["op"] == "call" and (s["extra"].get("base") or ("", ""))[0] == "ok":
+        value = s["extra"]["base"][1]
+    else:
+        return False
+    fc = field_cast(ctx.all_fields(h.cast["name"]), op["name"])
+    if fc is None:
+        return False
+    try:
+        T = S.single_field_class(fc, ctx)
+        v = G.unreify(value, ctx.classes)
+    except Exception:  # noqa
+        return False
+    try:
+        T(f=v)
+    except (TypeError, ValueError):
+        return True
+    except Exception:  # noqa
+        return False
+    return False
+
+
 def shrunk_replay(h, j, ctx, tables, done):
     """Replay object for the finding at step j of h.  For a long enumerated history the failing operation is tried
     alone (same start, same origin, same sibling events); if it does the same thing there -- same outcome, same
@@ -2455,10 +2489,19 @@ def run(rep, tier):
                        "%d histories, %d steps; %d histories with a failing step (reported above as findings)" % (len(hs), nsteps, nsp))
         mism = {hi: k for hi, k in r["mismatch"].items() if hi not in start_bad}
         unexplained = {hi: k for hi, k in mism.items() if not any(j == k for j, _, _ in hs[hi].py_findings)}
+        field_level = {hi: k for hi, k in unexplained.items() if field_alone_rejects(hs[hi], k, ctx)}
+        unexplained = {hi: k for hi, k in unexplained.items() if hi not in field_level}
+        if field_level:
+            hi0 = sorted(field_level)[0]
+            rep.stat("history", "mismatch:field-alone-rejects-what-the-field-model-admits", len(field_level))
+            rep.cov["streams"].setdefault("history", {"evaluations": 0})["field_level_disagreement_example"] = \
+                op_src(hs[hi0].steps[field_level[hi0]]["op"])
         rep.obligation("correspondence:mstep", not unexplained,
-                       "%d steps in %d histories; %d histories where model and implementation differ on a step, %d of them on "
-                       "a step that is itself reported as a finding (a clause of C03 fails there: concrete input above)" % (
-                           nsteps, len(hs), len(mism), len(mism) - len(unexplained)))
+                       "%d steps in %d histories; %d histories where model and implementation differ on a step: %d on a step that "
+                       "is itself reported as a finding (a clause of C03 fails there: concrete input above), %d where the field "
+                       "alone rejects a value the field model admits (raise, nothing changed: C02's subject), %d unexplained" % (
+                           nsteps, len(hs), len(mism), len(mism) - len(unexplained) - len(field_level), len(field_level),
+                           len(unexplained)))
         rep.obligation("theorem-instance:C03_history-on-observed", not r["contradicted"],
                        "%d histories satisfy the hypotheses; %d contradict the conclusion" % (len(r["hyps"]), len(r["contradicted"])))
         # a disagreement on a step where a clause of C03 fails is reported as that finding (concrete input);
